@@ -17,8 +17,8 @@ func (m *FixPeriodPlanner) Process(ctx *shared.PlannerContext,
 	in chan []shared.LogEntry) (chan []shared.LogEntry, error) {
 	_from := ctx.From.UnixNano()
 	_to := ctx.To.UnixNano()
-	ctx.From = ctx.From.Truncate(m.Duration)
-	ctx.To = ctx.To.Truncate(m.Duration).Add(m.Duration)
+	ctx.From = time.Unix(0, ctx.From.UnixNano()/m.Duration.Nanoseconds()*m.Duration.Nanoseconds())
+	ctx.To = time.Unix(0, ctx.To.UnixNano()/m.Duration.Nanoseconds()*m.Duration.Nanoseconds()).Add(m.Duration)
 
 	_in, err := m.Main.Process(ctx, in)
 	if err != nil {
